@@ -34,6 +34,11 @@ func runC04(c *ShardCtx) {
 	if c.Thorough() {
 		n = 5
 	}
+	if c.Shard == 0 {
+		for _, l := range core.BrokenVariants() {
+			c.Report(Violation{Desc: "the parser runtime emitted for one generation flag set does not compile (variant index bits: 1 optimize-parser, 2 optimize-basic-latin, 4 state blocks, 8 left recursion): " + l, Grammar: "seed grammar of that variant, see engine/rtgen"}, "")
+		}
+	}
 	idx := 0
 	var batch []c04Case
 	quota := 14
